@@ -380,7 +380,7 @@ static gate_ev* dry_run(const fspec_t* f, int mode, int batch, size_t* nref, rre
     G.mode = GM_OFF;
     close_mode(&o);
     gate_ev* ref = malloc((G.nlog + 1) * sizeof(gate_ev));
-    memcpy(ref, G.log, G.nlog * sizeof(gate_ev));
+    if (G.nlog) memcpy(ref, G.log, G.nlog * sizeof(gate_ev));
     *nref = G.nlog;
     /* phases (single row group): carquet_batch_reader_next first runs the prefetch loop, which loads
      * exactly one page (and the dictionary) for every column without a loaded page - that is only
@@ -415,8 +415,25 @@ static void op_gates(void) {
         printf(" M%d=", c); for (int k = 0; k < f.ncols; k++) printf("%s%d", k ? "," : "", G.expM[c][k]);
     }
     printf(" st="); print_status_list(&base);
-    printf(" ref=");
-    for (size_t i = 0; i < nref; i++) printf("%s%d:%d:%d:%ld", i ? "," : "", ref[i].call, ref[i].col, ref[i].site, ref[i].pos);
+    /* file size and start of the footer (end of the last column chunk) */
+    long fsz = 0, footer_start = 0;
+    { FILE* fp = fopen(f.path, "rb");
+      if (fp) { fseek(fp, 0, SEEK_END); fsz = ftell(fp);
+                if (fsz >= 12) { uint8_t t8[8]; fseek(fp, fsz - 8, SEEK_SET);
+                                 if (fread(t8, 1, 8, fp) == 8) footer_start = fsz - 8 - (long)((uint32_t)t8[0] | ((uint32_t)t8[1] << 8) | ((uint32_t)t8[2] << 16) | ((uint32_t)t8[3] << 24)); }
+                fclose(fp); } }
+    printf(" fsz=%ld ref=", fsz);
+    for (size_t i = 0; i < nref; i++) {
+        /* length of the read behind this gate: 256 for a header window; for a body the distance to
+         * whatever follows it in the file (next page header of any column, or the footer) */
+        long len = 256;
+        if (ref[i].site & 1) {
+            long next = footer_start > ref[i].pos ? footer_start : fsz;
+            for (size_t j = 0; j < nref; j++) if (!(ref[j].site & 1) && ref[j].pos > ref[i].pos && ref[j].pos < next) next = ref[j].pos;
+            len = next - ref[i].pos;
+        }
+        printf("%s%d:%d:%d:%ld:%ld", i ? "," : "", ref[i].call, ref[i].col, ref[i].site, ref[i].pos, len);
+    }
     if (nref == 0) printf("-");
     printf("\n");
     free(ref); free(base.text);
